@@ -791,11 +791,11 @@ def session_stream(ctx, res) -> None:
             sessions.append(sess)
         else:
             res.count("session-generator-discarded")
-    for i in range(0, len(sessions), 30):
+    for i in range(0, len(sessions), 100):  # one call of the Lean driver costs ~3 s whatever its size
         if time.time() > ctx.deadline:
             res.notes.append("deadline reached in the session stream")
             return
-        check_sessions(res, sessions[i:i + 30])
+        check_sessions(res, sessions[i:i + 100])
 
 
 def replay_session(rp) -> int:
